@@ -42,6 +42,11 @@ def one(sd):
             ap = subprocess.run(["patch", "-p1", "-d", scratch, "-i", os.path.join(sd, "patch.diff"), "--fuzz=3", "-s"], capture_output=True, text=True)
         if ap.returncode != 0:
             return (rel, target, "noapply", [], []), [f"{rel}: PATCH DOES NOT APPLY: {ap.stderr.strip()[:200]} {ap.stdout.strip()[:200]}"]
+        if os.environ.get("EVAL_TRANSFORM"):
+            sys.path.insert(0, verif)
+            from sa.transforms import TRANSFORMS
+
+            TRANSFORMS[os.environ["EVAL_TRANSFORM"]](scratch)
         env = dict(os.environ, VERIF_REPO=scratch, VERIF_EVIDENCE_DIR=os.path.join(scratch, "_evidence"))
         hit = {}
         for p in (props or claimed):
